@@ -140,7 +140,7 @@ struct MemDrv {
 #endif
         // byte-exact footprint in every configuration: hardware watchpoints on the bytes adjacent to the addressed elements
         HwWatch hw;
-        const bool hwon = g_hw && hw.watch_around(pl.p, pl.p + k, true, true) > 0;
+        const bool hwon = g_hw && hw.watch_around(pl.p, pl.p + k, true, true, serial * 3 + (serial >> 3)) > 0;
         int sg = guarded([&] { r = avel::to_array(f(ptr)); });
         if (hwon) vg += ",\"hw\":" + std::to_string(hw.disarm());
 #ifdef VH_VALGRIND
@@ -171,7 +171,7 @@ struct MemDrv {
         }
         S* ptr = reinterpret_cast<S*>(pl.p);
         HwWatch hw;
-        const bool hwon = g_hw && hw.watch_around(pl.p, pl.p + k, true, true) > 0;
+        const bool hwon = g_hw && hw.watch_around(pl.p, pl.p + k, true, true, serial * 3 + (serial >> 3)) > 0;
         int sg = guarded([&] { f(ptr, V(v)); });
         std::string hws = hwon ? ",\"hw\":" + std::to_string(hw.disarm()) : std::string();
         std::string s = head("store", n) + hws + ",\"place\":\"" + pl.name + "\",\"lead\":" + std::to_string(pl.lead) + ",\"v\":" +
